@@ -69,6 +69,7 @@ macro_rules! dispatch {
             "C02" => $f::<props::c02::C02>($($args),*),
             "C03" => $f::<props::c03::C03>($($args),*),
             "C04" => $f::<props::c04::C04>($($args),*),
+            "C05" => $f::<props::c05::C05>($($args),*),
             "C14" => $f::<props::c14::C14>($($args),*),
             other => {
                 eprintln!("unknown property {other}");
